@@ -295,6 +295,7 @@ def set_cases():
 
 
 def shard_generated(acc, shard, nshards, n_mesh, n_eq, n_sets):
+    engine.hyp_run(acc, "perm_ops", check_perm_ops, gen.perms(9, 40).map(list), max(20, n_mesh // 4), shard)
     engine.hyp_run(acc, "mesh_ops", check_mesh_ops, gen.mesh_patterns(0, 4), n_mesh, shard)
     engine.hyp_run(acc, "equivariance", check_equivariance, equiv_cases(), n_eq, shard)
     engine.hyp_run(acc, "sets", check_sets, set_cases(), n_sets, shard)
